@@ -67,7 +67,7 @@ func init() {
 	}
 	Specs["C07"] = Spec{
 		Gen: func(seed uint64, tier string) *Case {
-			return GenConc(seed, "C07", ConcParams{MinClients: 2, MaxClients: 4, MaxTxns: 150, OpAtomic: 60, LongReaders: true, Rotate: false, Abandon: true, MaxKeys: 5})
+			return GenConc(seed, "C07", ConcParams{MinClients: 2, MaxClients: 4, MaxTxns: 100, OpAtomic: 50, LongReaders: true, Rotate: false, Abandon: true, MaxKeys: 5})
 		},
 		Check: func(res *RunResult) *Eval {
 			ev := newEval()
